@@ -86,3 +86,76 @@ Proof.
   rewrite He, orb_true_r. reflexivity.
 Qed.
 End TraceBound.
+
+(* ---------- the traces of upscale.py never run out of fuel on a loop-free fine network ---------- *)
+Section UpscaleWalks.
+Variable sds : list nat.
+Variable sq : list nat.
+Hypothesis Ht : topo sds sq.
+Variables subncol cs nrow ncol : nat.
+Variable ea : list bool.
+Notation nsub := (length sds).
+Notation nc := (nrow * ncol)%nat.
+Notation cellof := (cellof subncol cs ncol).
+Hypothesis Hcell : forall t, (t < nsub)%nat -> (cellof t < nc)%nat.
+
+Lemma sq_lt s : In s sq -> (s < nsub)%nat /\ (dsf sds s < nsub)%nat.
+Proof. intros Hs. destruct (topo_valid sds sq s Ht Hs) as [H1 H2]. split; auto. Qed.
+
+(* generic: a walk that stops at the latest at a pit returns before the fuel runs out *)
+Lemma walk_fuel (A : Type) (walk : nat -> nat -> A) (bad : A -> Prop) :
+  (forall f s, In s sq -> dsf sds s = s -> ~ bad (walk (S f) s)) ->
+  (forall f s, In s sq -> dsf sds s <> s -> bad (walk (S f) s) -> bad (walk f (dsf sds s))) ->
+  forall s, In s sq -> ~ bad (walk (S nsub) s).
+Proof.
+  intros Hpit Hstep s Hs. destruct (path_bound sds sq Ht s Hs) as [k [Hk [Hp _]]].
+  assert (G : forall fuel s k, In s sq -> (k < fuel)%nat -> pit sds (iter sds k s) -> ~ bad (walk fuel s)).
+  { induction fuel as [|f IH]; intros s0 k0 Hs0 Hk0 Hp0; [lia|].
+    destruct (Nat.eq_dec (dsf sds s0) s0) as [E|E]; [apply Hpit; auto|].
+    intros Hb. apply Hstep in Hb; auto.
+    destruct k0 as [|k0]; [destruct Hp0 as [_ Hp0]; simpl in Hp0; contradiction|].
+    apply (IH (dsf sds s0) k0); auto; [apply (topo_closed sds sq); auto|lia]. }
+  apply (G (S nsub) s k); auto.
+Qed.
+
+(* eam_nextidx: the trace returns the index of a coarse cell *)
+Theorem eam_walk_terminates idx0 s : In s sq ->
+  (eam_walk sds subncol cs nrow ncol ea (S nsub) idx0 s < nc)%nat.
+Proof.
+  intros Hs.
+  destruct (Nat.lt_ge_cases (eam_walk sds subncol cs nrow ncol ea (S nsub) idx0 s) nc) as [H|H]; auto. exfalso.
+  refine (walk_fuel nat (fun f s => eam_walk sds subncol cs nrow ncol ea f idx0 s) (fun r => (nc <= r)%nat) _ _ s Hs H).
+  - intros f s0 Hs0 Hp. cbn [eam_walk]. change (Upscale.sd sds s0) with (dsf sds s0). rewrite Hp, Nat.eqb_refl.
+    destruct (sq_lt s0 Hs0) as [H1 _]. pose proof (Hcell s0 H1). lia.
+  - intros f s0 Hs0 Hnp. cbn [eam_walk]. change (Upscale.sd sds s0) with (dsf sds s0).
+    destruct (Nat.eqb_spec (dsf sds s0) s0); [contradiction|].
+    destruct (negb (cellof (dsf sds s0) =? idx0)%nat && eaf ea (dsf sds s0)); auto.
+    intros Hb. destruct (sq_lt s0 Hs0) as [_ H2]. pose proof (Hcell _ H2). lia.
+Qed.
+
+(* ihu_outlets: the trace returns a pixel *)
+Theorem out_walk_terminates idx0 s : In s sq -> (out_walk sds subncol cs ncol (S nsub) idx0 s < nsub)%nat.
+Proof.
+  intros Hs. destruct (Nat.lt_ge_cases (out_walk sds subncol cs ncol (S nsub) idx0 s) nsub) as [H|H]; auto. exfalso.
+  refine (walk_fuel nat (fun f s => out_walk sds subncol cs ncol f idx0 s) (fun r => (nsub <= r)%nat) _ _ s Hs H).
+  - intros f s0 Hs0 Hp. cbn [out_walk]. change (Upscale.sd sds s0) with (dsf sds s0). rewrite Hp, Nat.eqb_refl, orb_true_r.
+    destruct (sq_lt s0 Hs0). lia.
+  - intros f s0 Hs0 Hnp. cbn [out_walk]. change (Upscale.sd sds s0) with (dsf sds s0).
+    destruct (negb (idx0 =? cellof (dsf sds s0))%nat || (dsf sds s0 =? s0)%nat); auto.
+    intros Hb. destruct (sq_lt s0 Hs0). lia.
+Qed.
+
+(* dmm_nextidx: the trace returns the index of a coarse cell *)
+Theorem dmm_walk_terminates idx0 s0 s : In s sq ->
+  (dmm_walk sds subncol cs nrow ncol (S nsub) idx0 s0 s (cellof s) < nc)%nat.
+Proof.
+  intros Hs. destruct (Nat.lt_ge_cases (dmm_walk sds subncol cs nrow ncol (S nsub) idx0 s0 s (cellof s)) nc) as [H|H]; auto. exfalso.
+  refine (walk_fuel nat (fun f s => dmm_walk sds subncol cs nrow ncol f idx0 s0 s (cellof s)) (fun r => (nc <= r)%nat) _ _ s Hs H).
+  - intros f s1 Hs1 Hp. cbn [dmm_walk]. change (Upscale.sd sds s1) with (dsf sds s1). rewrite Hp, Nat.eqb_refl.
+    destruct (sq_lt s1 Hs1) as [H1 _]. pose proof (Hcell s1 H1). lia.
+  - intros f s1 Hs1 Hnp. cbn [dmm_walk]. change (Upscale.sd sds s1) with (dsf sds s1).
+    destruct (Nat.eqb_spec (dsf sds s1) s1); [contradiction|].
+    destruct (negb (cellof (dsf sds s1) =? idx0)%nat && dmm_outside subncol cs ncol idx0 s0 s1); auto.
+    intros Hb. destruct (sq_lt s1 Hs1) as [H1 _]. pose proof (Hcell s1 H1). lia.
+Qed.
+End UpscaleWalks.
